@@ -231,8 +231,13 @@ def skeleton(machines, lab):
             if cause == v.mid and following is not None:
                 self.taken.add(v.mid)
                 return [{"fail": lvl, "cont": following}]
-            # not the failure the reference run took: a Catch leads where the definition says, a retry to an attempt nothing is known of
-            return [{"fail": lvl, "cont": static_seq(self.machine, how[1]) if how[0] == "catch" else ["?"]}]
+            # not the failure the reference run took: a Catch leads where the definition says; a retry to a new attempt of the
+            # fan-out state, which is taken to go as the next attempt went in the reference run (the workers answer by attempt)
+            if how[0] == "catch":
+                return [{"fail": lvl, "cont": static_seq(self.machine, how[1])}]
+            if following and isinstance(following[0], dict) and "par" in following[0]:
+                return [{"fail": lvl, "cont": following}]
+            return [{"fail": lvl, "cont": ["?"]}]
 
         def seq(self, prefix, start, ctx):
             mine = self.threads.get(prefix, [])
